@@ -90,6 +90,13 @@ CHECKS['C06'] = dict(
     design_ref='DESIGN.md section 3 C06',
     note='dict backend with demo data; lines shorter than the 64 KiB stream limit; a line whose announced literal is longer than the bytes supplied leaves the server legitimately waiting; two recorded known findings (selection followed by name to a different mailbox; 500-deep MIME recursion)',
     technique='bounded-exhaustive input enumeration executed on the implementation under a virtual loop with step budget and CPU watchdog')
+CHECKS['C07'] = dict(
+    engine='E8 enumeration + independent strict response parser (vf/respparse.py, vf/checks/c07.py on the C06 engine)',
+    category='exploration',
+    text='100 % of the bytes the server writes during the following complete enumerations are parsed by an independent strict RFC 3501 response parser (written from the section 9 grammar plus LITERAL+, BINARY, UIDPLUS, MOVE, ID, OBJECTID, CHILDREN, IDLE, MULTIAPPEND; never imports pymap): the whole C06 corpus (everything echoed in BAD/NO texts and tags); mailbox names - all strings over a 20-character alphabet (delimiter, quote, backslash, &, -, wildcards, space, LF, CR, NUL, DEL, TAB, parentheses, brace, bracket, Latin-1, CJK, astral) up to length 2 (thorough 3) created via literal and read back through LIST, LSUB, STATUS, SELECT, RENAME, COPY and error texts; 18 header fields x 42 hostile values (bare CR, folded lines, NUL, quotes, backslashes, 8-bit, RFC 2047 words decoding to control characters, 63/64/65/5000 bytes, group syntax, broken parameters) at top level and inside nested and message/rfc822 parts, read back through ENVELOPE, BODY, BODYSTRUCTURE and header sections; all MIME part trees of depth <= 2 (thorough 3) and fan-out <= 2 over text / other / multipart (normal, missing and quoted boundary, zero parts) / message/rfc822; hostile keywords and ID values. Oracle: complete responses ending in CRLF, literal counts equal to the bytes that follow, quoted strings without CR/LF/NUL/unescaped specials, balanced lists, ENVELOPE and BODYSTRUCTURE shapes, no stream ending inside a response.',
+    design_ref='DESIGN.md section 3 C07',
+    note='8-bit bytes inside quoted strings and an empty response text are accepted (the property does not forbid them); ManageSieve output is not judged by this property; four recorded known findings (zero-part multipart; three FETCH-phase exceptions that tear the response)',
+    technique='bounded-exhaustive enumeration of echo-able client data, every server byte checked by an independent strict grammar parser')
 NA = {}
 
 def main():
